@@ -53,7 +53,7 @@ func linTypes() []linType {
 		// third initial state: an entry that has expired but has not been purged (1 ms lifetime, 3 ms real sleep)
 		{"cache", []string{"-1", "0", "int"}, [][]string{{}, {"set 0 7 0"}, {"set 0 7 1", "sleep 3"}},
 			[]string{"set 0 5 0", "set 1 6 -1", "get 0", "update 0 8 0", "delete 0", "count", "delexp"},
-			[]string{"count", "list", "get 0", "get 1"}},
+			[]string{"held", "count", "list", "get 0", "get 1"}},
 	}
 	// thresholds a change introduced into the source (VERIF_SIZES): a heap whose backing array is exactly full
 	for _, s := range extraSizes() {
